@@ -7,7 +7,7 @@ non-nullable column has no bitmap to live in and silently becomes a default valu
 Does not decide: agreement of static plan types with run-time arrays (needs running the plan)."""
 import re
 
-from tmpl import site, suffix, flows_from
+from tmpl import site, suffix, flows_from, origin_locals
 
 INSERT = 'executor::insert::InsertExecutor::<S>::execute'
 
@@ -79,6 +79,33 @@ def run(ctx):
                     ctx.ob(R2, 'InsertExecutor·appends-casted-chunk', okf, 'the chunk handed to Transaction::append must be the result of eval_list',
                            [site(main, c.bb)])
 
+    R5 = 'C16-R5'
+    ctx.rule(R5, 'what is checked is what is stored: when the executor enforces NOT NULL, the arrays whose NULLs it counts and the '
+                 'chunk it hands to Transaction::append both derive from the result of Evaluator::eval_list (the projection that '
+                 'fills unlisted columns with NULL and casts); a check on the raw input misses the columns the INSERT does not list')
+    main = prog.body(INSERT + '::{closure#0}')
+    if ctx.anchor(R5, INSERT + '::{closure#0}', main is not None):
+        ev = [c for c in main.calls if (c.fn or '').endswith('Evaluator::<\'a>::eval_list') or (c.fn or '').endswith('Evaluator::eval_list')
+              or re.search(r'Evaluator::<.*>::eval_list$', c.fn or '')]
+        ap = [c for c in main.calls if (c.fn or '') == 'storage::Transaction::append']
+        nn = [c for c in main.calls if (c.fn or '').endswith('Error::not_nullable')]
+        if ctx.anchor(R5, 'InsertExecutor: eval_list / Transaction::append', ev and ap):
+            ev_d = {c.dest['l'] for c in ev}
+            ok_ap = all(len(c.args) > 1 and c.args[1]['k'] != 'const' and ev_d & origin_locals(main, c.args[1]['pl']['l'], depth=30) for c in ap)
+            ctx.ob(R5, 'INSERT·appends-the-projected-chunk', ok_ap, 'Transaction::append must receive the chunk produced by eval_list',
+                   [site(main, c.bb) for c in ap])
+            if nn:
+                tests = [c for c in main.calls if re.search(r'ArrayImpl>?::(count|null_count|get_valid_bitmap|is_null)$|Array::(is_null|null_count)$', c.fn or '')]
+                if ctx.anchor(R5, 'InsertExecutor: NULL test of an array', tests):
+                    bad = [c for c in tests if not (c.args and c.args[0]['k'] != 'const' and ev_d & origin_locals(main, c.args[0]['pl']['l'], depth=30))]
+                    ctx.ob(R5, 'INSERT·checks-the-projected-chunk', not bad,
+                           f'{len(tests)} NULL test(s) examined; not derived from eval_list: {[site(main, c.bb) for c in bad]}',
+                           [site(main, c.bb) for c in (bad or tests)],
+                           what='InsertExecutor tests the raw input for NULLs instead of the projected chunk: a NOT NULL column that '
+                                'the INSERT does not list is filled with NULL unchecked')
+            else:
+                ctx.note('C16-R5: NOT NULL is not enforced in InsertExecutor itself (see R1 for where it is)')
+
     R3 = 'C16-R3'
     ctx.rule(R3, 'RowsetBuilder::new chooses the (nullable / non-nullable) block format from ColumnCatalog::is_nullable')
     rb = prog.group('storage::secondary::rowset::rowset_builder::RowsetBuilder::new')
@@ -98,7 +125,6 @@ def run(ctx):
     R4 = 'C16-R4'
     ctx.rule(R4, 'PRIMARY KEY implies NOT NULL for exactly the key the table gets: bind_create_table marks as non-nullable the '
                  'columns indexed by the same ordered_pk_ids value it stores into CreateTable (column option and table constraint alike)')
-    from tmpl import origin_locals
     grp = prog.group('binder::create_table::<impl binder::Binder>::bind_create_table')
     if ctx.anchor(R4, 'Binder::bind_create_table', bool(grp)):
         found_ct = False
